@@ -37,6 +37,10 @@ pub open spec fn into_v<A: Into<B>, B>(a: A) -> B { IntoSpec::<B>::into_spec(a) 
 pub proof fn std_into_refl<T>(a: T)
     ensures <T as IntoSpec<T>>::obeys_into_spec(), IntoSpec::<T>::into_spec(a) == a
 {}
+/// ASSUMED (std), broadcast form of std_into_refl so that call sites passing a `T` for `impl Into<T>` need no hint
+pub mod vx_ax { use vstd::prelude::*; use vstd::std_specs::convert::IntoSpec; pub broadcast axiom fn std_into_refl_b<T>(a: T)
+    ensures <T as IntoSpec<T>>::obeys_into_spec(), #[trigger] IntoSpec::<T>::into_spec(a) == a; }
+broadcast use vx_ax::std_into_refl_b;
 pub open spec fn lt<T: PartialOrd>(a: T, b: T) -> bool { a.partial_cmp_spec(&b) == Some(cmp::Ordering::Less) }
 pub open spec fn gt<T: PartialOrd>(a: T, b: T) -> bool { a.partial_cmp_spec(&b) == Some(cmp::Ordering::Greater) }
 
@@ -237,8 +241,16 @@ impl<T> FromSpecImpl<T> for Max<T> {
 //@  impl <K: Ord, V: Semilattice> GMap<K, V>
 //@    add
 //@      pub closed spec fn mv(self) -> Map<K, V::V> { self.raw()@.map_values(|x: V| x.v()) }
+//@    fn get_mut
+//@      attr #[verifier::external_body] // BTreeMap::get_mut is outside vstd: contract assumed (under contract so that callers using it can be decided)
+//@      ret r
+//@      ensures
+//@        !old(self).raw()@.contains_key(*key) ==> r is None && *final(self) == *old(self)
+//@        old(self).raw()@.contains_key(*key) ==> r is Some && *r->Some_0 == old(self).raw()@[*key] && final(self).raw()@ == old(self).raw()@.insert(*key, *final(r->Some_0))
+//@        old(self).raw()@.contains_key(*key) ==> old(self).mv().dom().contains(*key) && old(self).mv()[*key] == (*r->Some_0).v() && final(self).mv() == old(self).mv().insert(*key, (*final(r->Some_0)).v())
+//@        !old(self).raw()@.contains_key(*key) ==> !old(self).mv().dom().contains(*key)
 //@    fn insert
-//@      attr #[verifier::external_body] // BTreeMap::entry API is outside vstd; contract checked by Kani (bounded) -- see kx/crdt
+//@      attr #[verifier::external_body] // BTreeMap::entry API is outside vstd; contract assumed
 //@      ensures
 //@        V::lawful() ==> final(self).mv() == GMap::<K, V>::join_v(old(self).mv(), Map::<K, V::V>::empty().insert(key, value.v()))
 //@  impl <K, V> Default for GMap<K, V>
@@ -331,10 +343,10 @@ impl<K, V> GMap<K, V> { pub closed spec fn raw(self) -> BTreeMap<K, V> { self.in
 //@        vstd::laws_cmp::obeys_cmp_spec::<K>() ==> (match r { Some(x) => Some(x.v()), None => None }) == Self::visible(self.lv(), *key)
 //@    fn insert
 //@      ensures
-//@        Self::ok() ==> final(self).lv() == LWWMap::<K, V, C>::join_v(old(self).lv(), Map::<K, (C, Option<V::V>)>::empty().insert(key, (clock, Some(value.v()))))
+//@        Self::ok() ==> final(self).lv() =~= LWWMap::<K, V, C>::join_v(old(self).lv(), Map::<K, (C, Option<V::V>)>::empty().insert(key, (clock, Some(value.v()))))
 //@    fn remove
 //@      ensures
-//@        Self::ok() ==> final(self).lv() == LWWMap::<K, V, C>::join_v(old(self).lv(), Map::<K, (C, Option<V::V>)>::empty().insert(key, (clock, None::<V::V>)))
+//@        Self::ok() ==> final(self).lv() =~= LWWMap::<K, V, C>::join_v(old(self).lv(), Map::<K, (C, Option<V::V>)>::empty().insert(key, (clock, None::<V::V>)))
 //@    fn contains_key
 //@      ret r
 //@      ensures
